@@ -727,6 +727,7 @@ func TestC10(t *testing.T) {
 		"distinct = distinct interleaving signatures (hash of the hook-point trace)")
 	rep.RuleAdd("Also: complete v1 frames with sequence number 253 on links that demand signatures; an application that stops taking events for 4-5 idle-timeout periods (50 ms) while a TCP peer and a custom link keep delivering; peers pausing in mid-frame for less than the idle timeout. 254 / 255-byte v1 frames with marker bytes near their end on keyed links.")
 	rep.RuleAdd("Rounds 12-15: keyed v1 frames of 254/255 bytes, broadcast peers on the node's own port, damaged frames between valid ones in one datagram, last bytes handed over together with the error, empty datagrams.")
+	rep.RuleAdd("Rounds 16-17: datagrams from a stranger on the server's host to a UDP client's port; lives on new handles of one device whose Close does not interrupt the pending read; a broadcast router whose sender repeats the frame it just forwarded.")
 	rep.Assume("exactly one parse error per rejected item is not demanded; at least one parse-error event per session that carried complete frames with a wrong checksum is")
 	rep.Assume("UDP datagrams may be lost by the kernel under load: for UDP channels only order / uniqueness / attribution are asserted")
 	seed := shardSeed()
